@@ -8,8 +8,7 @@ cd "$W" || exit 2
 git checkout -q -- . ; git apply "$S/patch.diff" || { echo "RESULT patch-does-not-apply"; exit 3; }
 cargo build --offline --features verif >/dev/null 2>&1 && echo "build(verif): ok" || echo "build(verif): FAIL"
 cp "$S/demo.rs" "tests/$T.rs"
-cargo test --offline --lib 2>&1 | grep -E "^test result|FAILED|failed" | head -5
-cargo test --offline --test integration 2>&1 | grep -E "^test result" | head -2
+cargo nextest run --workspace --no-fail-fast --tool-config-file pb:/w/lib/nextest.toml --profile pb --test-threads 8 --offline -E 'not binary(/demo/)' 2>&1 | grep -E "Summary|FAIL|TIMEOUT" | head -8
 echo "--- demo WITH change:"; cargo test --offline --test "$T" 2>&1 | grep -E "^test result|panicked" | head -4
 git checkout -q -- src
 echo "--- demo WITHOUT change:"; cargo test --offline --test "$T" 2>&1 | grep -E "^test result|panicked" | head -4
